@@ -102,8 +102,9 @@ let run_lex d sep with_acc =
            (n_to_string e.e_char) (n_to_string e.e_line) (n_to_string e.e_col)
            (match e.e_last with None -> "-" | Some t -> n_to_string t)) r.lr_errors;
        let g = s.s_ghost in
-       Printf.bprintf out "G lines_ok=%b debt=%b err_ok=%b rollbacks=%s maxmodes=%s wf=%b\n" g.g_lines_ok g.g_line_debt
-         g.g_err_ok (n_to_string g.g_rollbacks) (n_to_string g.g_max_modes) (wfbuf_b r.lr_buffer));
+       Printf.bprintf out "G lines_ok=%b debt=%b err_ok=%b rollbacks=%s maxmodes=%s wf=%b consumed=%b loopdet=%b\n" g.g_lines_ok g.g_line_debt
+         g.g_err_ok (n_to_string g.g_rollbacks) (n_to_string g.g_max_modes) (wfbuf_b r.lr_buffer)
+         (s.s_cur.c_rest = []) s.s_loop_detected);
     if Buffer.length out > (1 lsl 19) then (print_string (Buffer.contents out); Buffer.clear out)
   done with End_of_file -> ());
   print_string (Buffer.contents out)
